@@ -279,23 +279,62 @@ func checkC09(r *Run) propMeta {
 }
 
 func filterErrArgsNonNil(vm *VisitorModel, fd *ast.FuncDecl) bool {
+	info := vm.pkg.TypesInfo
 	ok := false
 	bad := false
-	ast.Inspect(fd.Body, func(n ast.Node) bool {
-		if call, isCall := n.(*ast.CallExpr); isCall && calleeOf(vm.pkg.TypesInfo, call) == vm.ctxAddErrs {
-			if len(call.Args) == 0 {
-				bad = true
+	// the values handed to AddErrors by fd and by the same-package helpers it calls; a helper's parameter stands for
+	// the argument of the call (`s.reject(ErrX)` with `func (s *BaseVisitor) reject(reason error) { s.ctx.AddErrors(reason) }`)
+	var visit func(body ast.Node, bind map[types.Object]ast.Expr, depth int)
+	visit = func(body ast.Node, bind map[types.Object]ast.Expr, depth int) {
+		ast.Inspect(body, func(n ast.Node) bool {
+			call, isCall := n.(*ast.CallExpr)
+			if !isCall {
+				return true
 			}
-			for _, a := range call.Args {
-				if vm.nonNilError(a) {
-					ok = true
-				} else {
+			fn := calleeOf(info, call)
+			if fn == vm.ctxAddErrs {
+				if len(call.Args) == 0 {
 					bad = true
 				}
+				for _, a := range call.Args {
+					if id, isID := ast.Unparen(a).(*ast.Ident); isID {
+						if rep, has := bind[info.Uses[id]]; has {
+							a = rep
+						}
+					}
+					if vm.nonNilError(a) {
+						ok = true
+					} else {
+						bad = true
+					}
+				}
+				return true
 			}
-		}
-		return true
-	})
+			if fn != nil && fn.Pkg() == vm.pkg.Types && depth < 2 {
+				if hd := vm.decls[fn]; hd != nil && hd.Body != nil && hd.Type.Params != nil {
+					sub := map[types.Object]ast.Expr{}
+					i := 0
+					for _, pl := range hd.Type.Params.List {
+						for _, nm := range pl.Names {
+							if i < len(call.Args) {
+								arg := call.Args[i]
+								if id, isID := ast.Unparen(arg).(*ast.Ident); isID {
+									if rep, has := bind[info.Uses[id]]; has {
+										arg = rep
+									}
+								}
+								sub[info.Defs[nm]] = arg
+							}
+							i++
+						}
+					}
+					visit(hd.Body, sub, depth+1)
+				}
+			}
+			return true
+		})
+	}
+	visit(fd.Body, nil, 0)
 	return ok && !bad
 }
 
@@ -510,6 +549,9 @@ func fieldWriters(r *Run, field *types.Var) []writeSite {
 						if sel, ok := e.(*ast.SelectorExpr); ok {
 							if s := p.TypesInfo.Selections[sel]; s != nil && s.Obj() == field {
 								out = append(out, writeSite{fn: shortPkg(path) + "." + funcDeclName(fd), pos: n.Pos(), text: exprString(r.Fset, n)})
+							} else if s != nil && s.Kind() == types.FieldVal && structHoldsField(s.Obj().Type(), field, 0) {
+								// the field lives in a struct held by value in this field: assigning the holder replaces it
+								out = append(out, writeSite{fn: shortPkg(path) + "." + funcDeclName(fd), pos: n.Pos(), text: exprString(r.Fset, n) + " (replaces the struct that holds " + field.Name() + ")"})
 							}
 						}
 					}
@@ -795,4 +837,20 @@ func reachesConstruction(vm *VisitorModel, fd *ast.FuncDecl, ctors map[*types.Fu
 		return found
 	}
 	return visit(fd, 0)
+}
+
+// structHoldsField: t is a struct type (not a pointer to one) that has field among its fields, directly or in a struct
+// it holds by value.
+func structHoldsField(t types.Type, field *types.Var, depth int) bool {
+	st, ok := t.Underlying().(*types.Struct)
+	if !ok || depth > 3 {
+		return false
+	}
+	for i := 0; i < st.NumFields(); i++ {
+		f := st.Field(i)
+		if f == field || structHoldsField(f.Type(), field, depth+1) {
+			return true
+		}
+	}
+	return false
 }
